@@ -3,6 +3,7 @@ package kit
 import (
 	"fmt"
 	"go/token"
+	"go/types"
 	"sort"
 	"strings"
 
@@ -97,7 +98,8 @@ func (r *Reached) PathTo(in ssa.Instruction, pos func(token.Pos) string) string 
 	return strings.Join(parts, "→")
 }
 
-// trackedPhis returns boolean phis all of whose incoming values are constants or tracked phis.
+// trackedPhis returns the boolean phis of fn: their value is tracked exactly along a path when the
+// incoming value is a constant or another tracked phi whose value is known, and is unknown otherwise.
 func trackedPhis(fn *ssa.Function) map[*ssa.Phi]bool {
 	out := map[*ssa.Phi]bool{}
 	for _, b := range fn.Blocks {
@@ -106,13 +108,7 @@ func trackedPhis(fn *ssa.Function) map[*ssa.Phi]bool {
 			if !ok {
 				break
 			}
-			hasConst := false
-			for _, e := range p.Edges {
-				if _, ok := ConstBool(e); ok {
-					hasConst = true
-				}
-			}
-			if hasConst {
+			if bt, ok := p.Type().Underlying().(*types.Basic); ok && bt.Kind() == types.Bool {
 				out[p] = true
 			}
 		}
